@@ -885,6 +885,11 @@ def run(ctx: Ctx, rep: Report, tier: str) -> None:
     sub512 = Report("C03")
     expansion_covers_members(ctx, sub512)
     rep.absorb(sub512, "R03.16")
+    # R03.17 the kind an address is given ('any' / host / subnet) follows from the tests that mean it (C01 R01.6): an
+    # address typed 'any' covers everything in every address cover test
+    from .c01 import classification_guards
+
+    classification_guards(ctx, rep, rid="R03.17")
     members_only_for_groups(ctx, rep)
     # R03.12 premise: the flag/log split of the option text (the flag cover test reads .flags)
     from .c01 import option_partition
